@@ -33,9 +33,12 @@ pub type TestCli = Cli<Sink, SinkError, &'static mut [u8], &'static mut [u8]>;
 
 #[derive(Clone, Debug, Default)]
 pub struct Chunk {
-    /// "w" write_str, "wl" writeln_str, "u" ufmt::uwrite!, "f" core::fmt::Write
+    /// "w" write_str, "wl" writeln_str, "u" ufmt::uwrite!, "f" core::fmt::Write, ...
     pub m: String,
     pub t: Vec<u8>,
+    /// description and width for write_list_element
+    pub d: Vec<u8>,
+    pub w: usize,
 }
 
 #[derive(Clone, Debug, Default)]
@@ -52,6 +55,8 @@ fn parse_chunks(v: Option<&Value>) -> Vec<Chunk> {
                 .map(|c| Chunk {
                     m: c["m"].as_str().unwrap_or("w").to_string(),
                     t: bytes_of(&c["t"]),
+                    d: bytes_of(&c["d"]),
+                    w: c["w"].as_u64().unwrap_or(0) as usize,
                 })
                 .collect()
         })
@@ -133,6 +138,12 @@ pub fn perform(writer: &mut Writer<'_, Sink, SinkError>, chunks: &[Chunk]) -> Re
                 for ch in text.chars() {
                     ufmt::uwrite!(writer, "{}", ch)?
                 }
+            }
+            // the other public methods of Writer: write_title(text); write_list_element(text, description, width)
+            "ti" => writer.write_title(text)?,
+            "le" => {
+                let desc = std::str::from_utf8(&c.d).expect("script text must be UTF-8");
+                writer.write_list_element(text, desc, c.w)?
             }
             other => panic!("unknown chunk method {other}"),
         }
@@ -310,7 +321,7 @@ fn run_session<S: CmdSet>(script: &Value, out: &mut dyn FnMut(Value), opts: &Run
     let ctor = cfg["ctor"].as_str().unwrap_or("slices").to_string();
     let (cmd, hcap, prompt): (usize, usize, &'static str) = match ctor.as_str() {
         "default" => (40, 100, "$ "),
-        "arrays" => (5, 9, PROMPTS[prompt_idx]),
+        "arrays" | "promptfirst" => (5, 9, PROMPTS[prompt_idx]),
         "new" => (12, 20, "$ "),
         _ => (cmd, hcap, PROMPTS[prompt_idx]),
     };
@@ -337,6 +348,16 @@ fn run_session<S: CmdSet>(script: &Value, out: &mut dyn FnMut(Value), opts: &Run
     match ctor.as_str() {
         "default" => {
             let built = CliBuilder::default().writer(sink.clone()).build();
+            drive::<S, _, _>(built, None, script, &sink, &common, out, opts)
+        }
+        "promptfirst" => {
+            // the builder's setters in another order: prompt and buffers first, writer last
+            let built = CliBuilder::default()
+                .prompt(prompt)
+                .command_buffer([0u8; 5])
+                .history_buffer([0u8; 9])
+                .writer(sink.clone())
+                .build();
             drive::<S, _, _>(built, None, script, &sink, &common, out, opts)
         }
         "arrays" => {
